@@ -84,6 +84,14 @@ example : (mergeAll lexsortIdx [wsB, wsA]).map (cellItemsOf · ["c"] "TRIANGLE")
     some [⟨"TRIANGLE", [[0, 0], [1, 1], [0, 1]], [("c", [8])]⟩,
           ⟨"TRIANGLE", [[0, 0], [1, 0], [1, 1]], [("c", [7])]⟩] := by decide
 
+-- the driver's Bool hypothesis holds on these pieces, so `C06_hyp_sound` yields `PieceOk` for both
+example : mergeHyp [wsB, wsA] = true := by decide
+example : ∃ (rsC rsP : String → Nat) (dtC dtP : String → DType), ∀ f ∈ [wsB, wsA],
+    PieceOk f 2 ["c"] ["p"] rsC rsP dtC dtP :=
+  C06_hyp_sound wsB [wsA] (by decide)
+-- a piece with coincident points fails the hypothesis (and is outside the theorems)
+example : mergeHyp [⟨⟨2, [[0, 0], [0, 0]], []⟩, [], []⟩] = false := by decide
+
 /-! ### index remapping, duplicate search -/
 
 -- local points 1 and 3 are duplicates of global points 7 and 2; offset 10
